@@ -20,8 +20,22 @@ pub struct Case { cfg: Cfg, term: String, tag: String }
 pub struct P;
 
 // ---- Coq terms -------------------------------------------------------------------------------------
-fn t_str(s: &str) -> String { format!("(VS {})", zlist(s.chars().map(|c| c as i128))) }
-fn t_key(s: &str) -> String { zlist(s.chars().map(|c| c as i128)) }
+/// a string as one number: 1 followed by its scalar values as base-2^21 digits (decimal text of a
+/// big integer kept in base 10^9 limbs); the model unpacks it with `u`
+fn pack(s: &str) -> String {
+    let mut limbs: Vec<u64> = vec![1];
+    for c in s.chars() {
+        let mut carry = c as u64;
+        for l in limbs.iter_mut() { let v = *l * 2_097_152 + carry; *l = v % 1_000_000_000; carry = v / 1_000_000_000; }
+        while carry > 0 { limbs.push(carry % 1_000_000_000); carry /= 1_000_000_000; }
+    }
+    let mut out = format!("{}", limbs[limbs.len() - 1]);
+    for l in limbs.iter().rev().skip(1) { out.push_str(&format!("{:09}", l)); }
+    out
+}
+fn t_str(s: &str) -> String { format!("(VS (u {}))", pack(s)) }
+fn t_key(s: &str) -> String { format!("(u {})", pack(s)) }
+fn cksum(l: &[i128]) -> i128 { l.iter().fold(0i128, |acc, x| (acc * 1_000_003 + x + 7).rem_euclid(2_305_843_009_213_693_951)) }
 fn t_bool(b: bool) -> String { format!("(VB {})", coq_bool(b)) }
 fn t_int(v: i128) -> String { format!("(VZ {})", z(v)) }
 fn t_f64(f: f64) -> String { format!("(VF {})", f.to_bits()) }
@@ -84,8 +98,7 @@ macro_rules! save_load {
                 let tree = guarded(|| serde_yaml::to_value(cfg)).ok().and_then(|r| r.ok());
                 let mut e = Vec::new();
                 match &tree { Some(t) => e_yaml(t, &mut e), None => e.push(-7) }
-                let mut out = vec![1, e.len() as i128];
-                out.extend(e);
+                let mut out = vec![1, e.len() as i128, cksum(&e)];
                 let loaded: Result<Result<$t, ()>, String> = guarded(|| <$t as Config>::load(&path));
                 match loaded {
                     Err(_) => out.push(-2),
